@@ -78,7 +78,7 @@ def run(tier, build, replay=None):
         if "ok" not in i:
             continue
         mono = dates_monotone(c)
-        tags = set() if mono else {"non-monotone-local-dates"}
+        tags = set() if mono or t is None else {"non-monotone-local-dates"}       # F9 concerns the to-date cut only
         want = oracle.flows(c, t, by_date=True)
         got = {}
         for ex, ho, fin, acq, sent, recv in i["ok"]["balances"]:
